@@ -500,6 +500,7 @@ fn random_case(ctx: &Ctx, idx: u64, out: &mut CaseOut) {
     let profile = *rng.pick(&[Profile::Maint, Profile::Maint, Profile::Depots, Profile::Mixed, Profile::NonMetric]);
     let mut opts = GenOpts::new(profile, if ctx.thorough() { 10 } else { 6 });
     opts.force_slots = true;
+    opts.rotation_rich = rng.chance(1, 2);
     let tag = format!("r{}c{}", ctx.seed, idx);
     let input = gen::generate(&mut rng, &opts, &tag);
     let b = Bridge::new(&input).expect("bridge");
